@@ -115,7 +115,8 @@ def correspondence(chk, binp, nfonts, shard_fonts=12):
     # the harness is fast; run it in a few chunks so that fonts/cases stay associated with a shard
     shards = [("cases", first, min(shard_fonts, nfonts - first)) for first in range(0, nfonts, shard_fonts)]
     shards.append(("xstream", XSTREAM_SHARD, 6))   # known-finding probe: Marks fonts + cross-stream kern subtable
-    # ligatures built from ligatures with marks on every component: outside the model's GSUB domain, geometric predicate only
+    # ligatures built from ligatures with marks on every component (the model's ligate_input keeps HarfBuzz's full
+    # component bookkeeping): model correspondence AND geometric predicate
     shards.append(("liglig", LIGLIG_SHARD, max(6, nfonts // 4)))
     for cmd, first, n in shards:
         fonts, cases, geos, st, an = run_cases(binp, seed, first, n, cmd)
@@ -123,11 +124,6 @@ def correspondence(chk, binp, nfonts, shard_fonts=12):
             st = {"xstream." + k: v for k, v in st.items()}
         if cmd == "liglig":
             st = {"liglig." + k: v for k, v in st.items()}
-            all_geo += geos
-            anomalies += an
-            for k, v in st.items():
-                stats[k] = stats.get(k, 0) + v
-            continue
         all_geo += geos
         anomalies += an
         for k, v in st.items():
